@@ -224,7 +224,8 @@ Record inv (new : list hash) (cf : finder) : Prop := {
   i_dbt : dbt_ok cf;
   i_nodup : nodup_ok cf;
   i_cover : forall x, proc new x -> exists b l, dget b (tfb cf) = Some l /\ In x l;
-  i_J : forall c y, proc new c -> dget c p = Some y -> In y new -> old c
+  i_J : forall c y, proc new c -> dget c p = Some y -> In y new -> old c;
+  i_keys : NoDup (map fst (tfb cf))
 }.
 
 Lemma inv_trees_ok new cf : inv new cf -> trees_ok cf.
@@ -244,7 +245,8 @@ Record mid (a : hash) (new new' : list hash) (path' : list hash) (cf' : finder) 
   m_cover : forall x, pm new' a x -> (exists b l, dget b (tfb cf') = Some l /\ In x l) \/ In x path';
   m_path : ppath p (proc new') a path';
   m_J : forall c y, proc new' c -> dget c p = Some y -> In y new' -> old c;
-  m_len : (length new' < length new)%nat
+  m_len : (length new' < length new)%nat;
+  m_keys : NoDup (map fst (tfb cf'))
 }.
 
 Lemma In_removelast {A} (x : A) l : In x (removelast l) -> In x l.
@@ -329,6 +331,7 @@ Proof.
         -- apply Hm in Hy. tauto.
         -- subst c. congruence.
     + pose proof (sdiscard_length_lt a new Ha). lia.
+    + apply I.
   - (* the walk met the bottom k of an existing tree *)
     destruct (i_tree _ _ I _ _ Etk) as [Pk Hpk].
     pose proof (ppath_last_notP _ _ _ _ Hpk) as Hntop.
@@ -405,6 +408,7 @@ Proof.
         -- apply Hm in Hy. rewrite in_app_iff in Hy. tauto.
         -- subst c. rewrite Ek in Ey. inversion Ey; subst y. apply Hm in Hy. rewrite in_app_iff in Hy. cbn in Hy. tauto.
     + pose proof (sdiscard_length_lt a new Ha). lia.
+    + cbn [tfb]. apply ddel_keys. apply I.
 Qed.
 
 (* ---- extend_all *)
@@ -413,22 +417,24 @@ Lemma extend_all_spec path : forall desc t,
   exists t', extend_all path desc t = Ret t' /\
     (forall x, In x desc -> exists l, dget x t = Some l /\ dget x t' = Some (l ++ tl path)) /\
     (forall x, ~ In x desc -> x <> hd 0 path -> dget x t' = dget x t) /\
-    (desc <> [] -> dget (hd 0 path) t' = None).
+    (desc <> [] -> dget (hd 0 path) t' = None) /\
+    (NoDup (map fst t) -> NoDup (map fst t')).
 Proof.
   induction desc as [|d r IH]; intros t Hnd Ha Hall.
-  - exists t. split; [reflexivity|]. split; [intros x []|]. split; [auto|congruence].
+  - exists t. split; [reflexivity|]. split; [intros x []|]. split; [auto|]. split; [congruence|auto].
   - cbn [extend_all]. destruct (dget d t) as [l|] eqn:Ed; [|exfalso; eapply Hall; [now left|exact Ed]].
     inversion Hnd as [|? ? Hdr Hr]; subst.
     assert (Hda : d <> hd 0 path) by (intros E; apply Ha; now left).
     set (t1 := ddel (hd 0 path) (dset d (l ++ tl path) t)).
     assert (Ht1 : forall x, x <> hd 0 path -> x <> d -> dget x t1 = dget x t).
     { intros x H1 H2. unfold t1. rewrite dget_ddel_neq by exact H1. now rewrite dget_dset_neq by exact H2. }
-    destruct (IH t1 Hr) as (t' & Hex & Ha' & Hb' & Hc').
+    destruct (IH t1 Hr) as (t' & Hex & Ha' & Hb' & Hc' & Hk').
     { intros H. apply Ha. now right. }
     { intros d' Hd'. rewrite Ht1; [apply Hall; now right| |].
       - intros E. apply Ha. right. now rewrite <- E.
       - intros ->. contradiction. }
-    exists t'. split; [exact Hex|]. split; [|split].
+    exists t'. split; [exact Hex|]. split; [|split; [|split]].
+    4: { intros Hk. apply Hk'. unfold t1. apply ddel_keys. now apply dset_keys. }
     + intros x [<-|Hx].
       * exists l. split; [exact Ed|]. rewrite Hb' by auto. unfold t1.
         rewrite dget_ddel_neq by exact Hda. apply dget_dset_eq.
@@ -559,7 +565,8 @@ Proof.
       + destruct (m_cover _ _ _ _ _ M x (conj Px Hxa)) as [(b & l & E & Hin)|Hin].
         * exists b, l. split; [|exact Hin]. rewrite dget_dset_neq; [exact E|]. intros ->. congruence.
         * exists a, path'. rewrite dget_dset_eq. auto.
-    - apply M. }
+    - apply M.
+    - apply dset_keys. apply M. }
   rewrite Eda.
   destruct (dget a (dbt cf')) as [[|d0 dr]|] eqn:Edesc.
   - (* empty set stored under a *)
@@ -573,7 +580,7 @@ Proof.
       intros (s & Es & Hb). inversion Es; now subst. }
     assert (Hand : ~ In a desc).
     { intros H. apply Hdesc in H. destruct H as (l & E & _). congruence. }
-    destruct (extend_all_spec path' desc (dset a path' (tfb cf'))) as (tfb2 & Hex & Hin2 & Hout2 & Ha2).
+    destruct (extend_all_spec path' desc (dset a path' (tfb cf'))) as (tfb2 & Hex & Hin2 & Hout2 & Ha2 & Hk2).
     { eapply (m_nodup _ _ _ _ _ M); eauto. }
     { exact Hand. }
     { intros d Hd. rewrite dget_dset_neq by (intros ->; contradiction).
@@ -645,6 +652,7 @@ Proof.
               rewrite dget_dset_neq; [exact E|intros ->; congruence].
         -- exists d0, (l0 ++ rest). split; [exact E1|]. now apply Hpath_in.
     + apply M.
+    + apply Hk2. apply dset_keys. apply M.
   - rewrite Ets. eexists. split; [reflexivity|]. apply NOEXT.
     intros b l E El. assert (Hi : inset (dbt cf') a b) by (apply (m_dbt _ _ _ _ _ M); eauto).
     destruct Hi as (s & Es & Hb). rewrite Edesc in Es. discriminate.
@@ -677,10 +685,11 @@ End Meld.
 (* ------------------------------------------------------------------ the invariant between batches *)
 Lemma finder_ok_empty : finder_ok empty_finder.
 Proof.
-  split; [intros b l E; discriminate|]. split; [|split].
+  split; [intros b l E; discriminate|]. split; [|split; [|split]].
   - intros t b. split; [intros (s & E & _); discriminate|intros (l & E & _); discriminate].
   - intros t s E. discriminate.
   - intros x H. exfalso. apply H. reflexivity.
+  - constructor.
 Qed.
 
 Lemma register_spec : forall nodes p0 n0 p' N',
@@ -718,12 +727,16 @@ Proof.
   - rewrite (IH n' q t Hs'); [apply orb_true_r|lia].
 Qed.
 
-Theorem load_nodes_ok rk cf nodes p' N0 :
+(* no walk of the batch can run through a new header that earlier orphans are waiting for *)
+Definition safe_batch (p0 p' : dict hash) (N0 : list hash) : Prop :=
+  forall t a c, In t N0 -> In a N0 -> a <> t -> kn p0 c -> dget c p' = Some t -> ~ anc p' a t.
+
+Theorem load_nodes_safe rk cf nodes p' N0 :
   finder_ok cf -> register nodes (pl cf) [] = (p', N0) -> ranked rk p' ->
-  bad_batch (pl cf) nodes = false ->
+  safe_batch (pl cf) p' N0 ->
   forall prio, exists cf', load_nodes prio nodes cf = Ret cf' /\ finder_ok cf' /\ pl cf' = p'.
 Proof.
-  intros (Ft & Fd & Fn & Fc) Hreg Hrk Hbad prio.
+  intros (Ft & Fd & Fn & Fc & Fk) Hreg Hrk Hsafe prio.
   destruct (register_spec _ _ _ _ _ Hreg) as [R1 R2].
   set (p0 := pl cf) in *.
   assert (R2' : forall x, In x N0 <-> dget x p0 = None /\ dget x p' <> None).
@@ -747,33 +760,95 @@ Proof.
     - exact Fd.
     - exact Fn.
     - intros x Hx. apply Fc. now apply Kproc.
-    - intros c y Hc _ _. now apply Kproc. }
+    - intros c y Hc _ _. now apply Kproc.
+    - exact Fk. }
   unfold load_nodes. fold p0. rewrite Hreg.
   destruct (meld_inv p' rk Hrk (kn p0) N0) with (prio := prio) (fuel := length N0) (new := N0)
     (cf := mkFinder p' (dbt cf) (tfb cf)) as (cf' & Hm & I').
   - intros x Hx. apply R2' in Hx. split; [unfold kn; tauto|unfold known; tauto].
   - (* safe *)
-    intros t a c Ht Ha Hat Hc Ec Hanc.
-    unfold bad_batch in Hbad. fold p0 in Hbad. rewrite Hreg in Hbad.
-    rewrite <- not_true_iff_false in Hbad. apply Hbad. apply existsb_exists. exists t. split; [exact Ht|].
-    apply andb_true_intro. split.
-    + unfold has_child_in. apply existsb_exists. exists (c, t). split; [|apply N.eqb_refl].
-      apply dget_In. unfold kn in Hc. destruct (dget c p0) as [q|] eqn:E; [|congruence].
-      pose proof (R1 _ _ E) as E'. rewrite E' in Ec. injection Ec as <-. exact E.
-    + apply existsb_exists. exists a. split; [exact Ha|]. apply andb_true_intro. split.
-      * apply negb_true_iff. now apply N.eqb_neq.
-      * destruct Hanc as [n Hs]. eapply reaches_complete; [exact Hs|].
-        pose proof (steps_bound _ _ _ _ _ Hrk Hs). lia.
+    exact Hsafe.
   - exact I0.
   - lia.
   - exists cf'. split; [exact Hm|]. split; [|apply I'].
     pose proof (i_pl _ _ _ _ _ I') as Epl.
     assert (Kp : forall x, proc p' [] x <-> kn (pl cf') x).
     { intros x. rewrite Epl. unfold proc, known, kn. cbn. tauto. }
-    split; [|split; [apply I'|split; [apply I'|]]].
+    split; [|split; [apply I'|split; [apply I'|split; [|apply I']]]].
     + intros b l E. destruct (i_tree _ _ _ _ _ I' _ _ E) as [Pb Hp]. split; [now apply Kp|].
       rewrite Epl. eapply ppath_mono; [exact Hp| |].
       * intros x Hx. apply Kp in Hx. now rewrite Epl in Hx.
       * intros Hx. apply (ppath_last_notP _ _ _ _ Hp). apply Kp. now rewrite Epl.
     + intros x Hx. apply (i_cover _ _ _ _ _ I'). now apply Kp.
+Qed.
+
+Lemma bad_batch_safe rk p0 nodes p' N0 :
+  register nodes p0 [] = (p', N0) -> ranked rk p' -> bad_batch p0 nodes = false -> safe_batch p0 p' N0.
+Proof.
+  intros Hreg Hrk Hbad t a c Ht Ha Hat Hc Ec Hanc.
+  destruct (register_spec _ _ _ _ _ Hreg) as [R1 R2].
+  unfold bad_batch in Hbad. rewrite Hreg in Hbad.
+  rewrite <- not_true_iff_false in Hbad. apply Hbad. apply existsb_exists. exists t. split; [exact Ht|].
+  apply andb_true_intro. split.
+  - unfold has_child_in. apply existsb_exists. exists (c, t). split; [|apply N.eqb_refl].
+    apply dget_In. unfold kn in Hc. destruct (dget c p0) as [q|] eqn:E; [|congruence].
+    pose proof (R1 _ _ E) as E'. rewrite E' in Ec. injection Ec as <-. exact E.
+  - apply existsb_exists. exists a. split; [exact Ha|]. apply andb_true_intro. split.
+    + apply negb_true_iff. now apply N.eqb_neq.
+    + destruct Hanc as [n Hs]. eapply reaches_complete; [exact Hs|].
+      pose proof (steps_bound _ _ _ _ _ Hrk Hs). lia.
+Qed.
+
+Theorem load_nodes_ok rk cf nodes p' N0 :
+  finder_ok cf -> register nodes (pl cf) [] = (p', N0) -> ranked rk p' ->
+  bad_batch (pl cf) nodes = false ->
+  forall prio, exists cf', load_nodes prio nodes cf = Ret cf' /\ finder_ok cf' /\ pl cf' = p'.
+Proof.
+  intros F Hreg Hrk Hbad. eapply load_nodes_safe; eauto. eapply bad_batch_safe; eauto.
+Qed.
+
+(* registration only depends on the maps as functions *)
+Lemma register_ext : forall nodes p1 p2 n p1' N1 p2' N2,
+  (forall x, dget x p1 = dget x p2) -> register nodes p1 n = (p1', N1) -> register nodes p2 n = (p2', N2) ->
+  N1 = N2 /\ forall x, dget x p1' = dget x p2'.
+Proof.
+  induction nodes as [|[h par] r IH]; intros p1 p2 n p1' N1 p2' N2 Hext R1 R2; cbn in R1, R2.
+  - inversion R1; inversion R2; subst. auto.
+  - assert (Eh : dhas h p1 = dhas h p2) by (unfold dhas; now rewrite Hext).
+    rewrite <- Eh in R2. destruct (dhas h p1).
+    + eapply IH; eauto.
+    + eapply IH; [|exact R1|exact R2]. intros x. destruct (N.eq_dec x h) as [->|Hn].
+      * now rewrite !dget_dset_eq.
+      * now rewrite !dget_dset_neq by exact Hn.
+Qed.
+Lemma steps_ext p1 p2 : (forall x, dget x p1 = dget x p2) -> forall n a t, steps p1 n a t -> steps p2 n a t.
+Proof. intros Hext. induction 1; [constructor|]. econstructor; [rewrite <- Hext; eauto|auto]. Qed.
+Lemma safe_batch_ext p0 p' q0 q' N0 :
+  (forall x, dget x p0 = dget x q0) -> (forall x, dget x p' = dget x q') ->
+  safe_batch p0 p' N0 -> safe_batch q0 q' N0.
+Proof.
+  intros E0 E' H t a c Ht Ha Hat Hc Ec [n Hs]. apply (H t a c); auto.
+  - unfold kn in *. now rewrite E0.
+  - now rewrite E'.
+  - exists n. eapply steps_ext; [|exact Hs]. intros x. now rewrite E'.
+Qed.
+Lemma register_dget : forall nodes p0 n0 p' N', register nodes p0 n0 = (p', N') ->
+  (forall h q, dget h p' = Some q -> dget h p0 = Some q \/ In (h, q) nodes) /\
+  (forall h q, In (h, q) nodes -> dget h p' <> None).
+Proof.
+  induction nodes as [|[h par] r IH]; intros p0 n0 p' N' E; cbn in E.
+  - inversion E; subst. split; [auto|intros h q []].
+  - destruct (dhas h p0) eqn:Eh.
+    + destruct (IH _ _ _ _ E) as [A B]. split.
+      * intros h' q Hq. destruct (A _ _ Hq); [now left|right; now right].
+      * intros h' q [Hq|Hq]; [|eauto]. inversion Hq; subst. apply dhas_true in Eh.
+        destruct (dget h' p0) as [q0|] eqn:E0; [|congruence].
+        destruct (register_spec _ _ _ _ _ E) as [R1 _]. rewrite (R1 _ _ E0). discriminate.
+    + destruct (IH _ _ _ _ E) as [A B]. apply dhas_false in Eh. split.
+      * intros h' q Hq. destruct (A _ _ Hq) as [H|H]; [|right; now right].
+        destruct (N.eq_dec h' h) as [->|Hn].
+        -- rewrite dget_dset_eq in H. inversion H; subst. right. now left.
+        -- rewrite dget_dset_neq in H by exact Hn. now left.
+      * intros h' q [Hq|Hq]; [|eauto]. inversion Hq; subst.
+        destruct (register_spec _ _ _ _ _ E) as [R1 _]. rewrite (R1 h' q); [discriminate|apply dget_dset_eq].
 Qed.
